@@ -74,7 +74,7 @@ def run(ctx):
         if True:
             mod, w = world_module(ctx, "MCTrieSyncW%d%s" % (t, scheme), "MCTrieSyncBase", wp, scheme)
             ctx.model_check(mod, "trie/MCTrieSyncWorld", timeout=7200, name="MCTrieSync[target %d, %s]" % (t, scheme), workers=ctx.pick(4, 8))
-            res = ctx.tlc(mod, "trie/MCTrieSyncSim", simulate="num=%d" % ctx.pick(40, 600), depth=45, tags=("MBT",), timeout=3600,
+            res = ctx.tlc(mod, "trie/MCTrieSyncSim", simulate="num=%d" % ctx.pick(40, 200), depth=45, tags=("MBT",), timeout=3600,
                           workers=4, name="MCTrieSyncSim[target %d, %s]" % (t, scheme))
             if res.timeout or not res.ok:
                 raise InfraError("TLC simulation failed: %s\n%s" % (res.error, res.stdout[-2000:]))
